@@ -527,6 +527,8 @@ def moved_class_stream(ctx, n):
 
 def correspondence(ctx):
     moved_class_stream(ctx, ctx.budget(24, 240))
+    from props import c13
+    c13.int_homogeneous_centres(ctx, ctx.budget(20, 200), prefix="C14")     # integer centres with fractional radii: the quadric the line is intersected with
     complex_symmetric_stream(ctx, ctx.budget(40, 400))
     axis_lines_stream(ctx, ctx.budget(25, 250))
     from props import c07
